@@ -99,13 +99,13 @@ theorem dirPrefixes_snoc (a c : Str) (hc : '/' ∉ c) :
     rw [List.take_of_length_le (by simp [List.length_append])]
 
 
-/-- the ancestor chain of `/c1/…/cn`: `/c1`, `/c1/c2`, …, `/c1/…/cn` -/
-def chain (cs : List Str) : List Str := (List.range cs.length).map (fun k => renderC (cs.take (k + 1)))
+/-- the ancestor ancChain of `/c1/…/cn`: `/c1`, `/c1/c2`, …, `/c1/…/cn` -/
+def ancChain (cs : List Str) : List Str := (List.range cs.length).map (fun k => renderC (cs.take (k + 1)))
 
-@[simp] theorem chain_nil : chain [] = [] := rfl
+@[simp] theorem ancChain_nil : ancChain [] = [] := rfl
 
-theorem chain_snoc (cs : List Str) (c : Str) : chain (cs ++ [c]) = chain cs ++ [renderC (cs ++ [c])] := by
-  unfold chain
+theorem ancChain_snoc (cs : List Str) (c : Str) : ancChain (cs ++ [c]) = ancChain cs ++ [renderC (cs ++ [c])] := by
+  unfold ancChain
   rw [List.length_append, List.length_singleton, List.range_succ, List.map_append]
   congr 1
   · apply List.map_congr_left
@@ -132,20 +132,20 @@ theorem snoc_induction {α} {P : List α → Prop} (hnil : P [])
         exact hsnoc l' a (ih l' (by simp at hl; exact hl))
   exact this l.length l rfl
 
-/-- (a) the prefixes visited by `create_dir_all` on `/c1/…/cn` are exactly the ancestor chain -/
+/-- (a) the prefixes visited by `create_dir_all` on `/c1/…/cn` are exactly the ancestor ancChain -/
 theorem dirPrefixes_renderC (cs : List Str) (h : ∀ c ∈ cs, '/' ∉ c) :
-    VPath.dirPrefixes (renderC cs) = chain cs := by
+    VPath.dirPrefixes (renderC cs) = ancChain cs := by
   revert h
-  refine snoc_induction (P := fun cs => (∀ c ∈ cs, '/' ∉ c) → VPath.dirPrefixes (renderC cs) = chain cs)
+  refine snoc_induction (P := fun cs => (∀ c ∈ cs, '/' ∉ c) → VPath.dirPrefixes (renderC cs) = ancChain cs)
     ?_ ?_ cs
   · intro _; decide
   · intro l c ih h
-    rw [renderC_snoc, dirPrefixes_snoc _ _ (h c (by simp)), chain_snoc, renderC_snoc,
+    rw [renderC_snoc, dirPrefixes_snoc _ _ (h c (by simp)), ancChain_snoc, renderC_snoc,
       ih (fun x hx => h x (by simp [hx]))]
 
-theorem mem_chain (cs : List Str) (q : Str) :
-    q ∈ chain cs ↔ ∃ k, k < cs.length ∧ q = renderC (cs.take (k + 1)) := by
-  unfold chain
+theorem mem_ancChain (cs : List Str) (q : Str) :
+    q ∈ ancChain cs ↔ ∃ k, k < cs.length ∧ q = renderC (cs.take (k + 1)) := by
+  unfold ancChain
   simp only [List.mem_map, List.mem_range]
   constructor
   · rintro ⟨k, hk, rfl⟩; exact ⟨k, hk, rfl⟩
@@ -156,27 +156,27 @@ theorem renderC_take_length_le (cs : List Str) (k : Nat) :
   conv => rhs; rw [← List.take_append_drop k cs, renderC_append]
   simp [List.length_append]
 
-theorem chain_length_le (cs : List Str) (q : Str) (h : q ∈ chain cs) :
+theorem ancChain_length_le (cs : List Str) (q : Str) (h : q ∈ ancChain cs) :
     q.length ≤ (renderC cs).length := by
-  obtain ⟨k, _, rfl⟩ := (mem_chain cs q).1 h
+  obtain ⟨k, _, rfl⟩ := (mem_ancChain cs q).1 h
   exact renderC_take_length_le cs (k + 1)
 
-theorem snoc_not_mem_chain (cs : List Str) (c : Str) : renderC (cs ++ [c]) ∉ chain cs := by
+theorem snoc_not_mem_ancChain (cs : List Str) (c : Str) : renderC (cs ++ [c]) ∉ ancChain cs := by
   intro h
-  have := chain_length_le cs _ h
+  have := ancChain_length_le cs _ h
   simp [List.length_append] at this
   omega
 
 
-theorem chain_append_exists (x y : List Str) : ∃ rest, chain (x ++ y) = chain x ++ rest := by
-  refine snoc_induction (P := fun y => ∃ rest, chain (x ++ y) = chain x ++ rest) ?_ ?_ y
+theorem ancChain_append_exists (x y : List Str) : ∃ rest, ancChain (x ++ y) = ancChain x ++ rest := by
+  refine snoc_induction (P := fun y => ∃ rest, ancChain (x ++ y) = ancChain x ++ rest) ?_ ?_ y
   · exact ⟨[], by simp⟩
   · intro l c ⟨rest, hr⟩
     refine ⟨rest ++ [renderC (x ++ l ++ [c])], ?_⟩
-    rw [← List.append_assoc, chain_snoc, hr, List.append_assoc]
+    rw [← List.append_assoc, ancChain_snoc, hr, List.append_assoc]
 
-theorem renderC_mem_chain (cs : List Str) (h : cs ≠ []) : renderC cs ∈ chain cs := by
-  rw [mem_chain]
+theorem renderC_mem_ancChain (cs : List Str) (h : cs ≠ []) : renderC cs ∈ ancChain cs := by
+  rw [mem_ancChain]
   have hl : 0 < cs.length := by
     cases cs with
     | nil => exact absurd rfl h
@@ -262,17 +262,17 @@ theorem run_pCreateDirAll {w : World} {i : Nat} {m : FMap} (h : MemLeafAt w i m)
   · simp only [hp, ↓reduceIte, run_createDirAllLoop id p _ h]
 
 
-/-- `m'` is `m` plus exactly the chain of directories of `/c1/…/cn` -/
+/-- `m'` is `m` plus exactly the ancChain of directories of `/c1/…/cn` -/
 structure ChainMade (m m' : FMap) (cs : List Str) : Prop where
   wf : WF m'
   /-- every prefix is a directory afterwards -/
-  dirs : ∀ q ∈ chain cs, ∃ e, m'.find? q = some e ∧ e.ftype = .dir
+  dirs : ∀ q ∈ ancChain cs, ∃ e, m'.find? q = some e ∧ e.ftype = .dir
   /-- every entry that was there is unchanged -/
   keeps : ∀ k e, m.find? k = some e → m'.find? k = some e
-  /-- no key outside the chain was touched -/
-  frame : ∀ k, k ∉ chain cs → m'.find? k = m.find? k
+  /-- no key outside the ancChain was touched -/
+  frame : ∀ k, k ∉ ancChain cs → m'.find? k = m.find? k
   /-- the missing prefixes are fresh directories -/
-  fresh : ∀ q ∈ chain cs, m.find? q = none → m'.find? q = some dirEntryNow
+  fresh : ∀ q ∈ ancChain cs, m.find? q = none → m'.find? q = some dirEntryNow
 
 theorem ChainMade.refl_nil {m : FMap} (h : WF m) : ChainMade m m [] :=
   ⟨h, by simp, fun _ _ h => h, fun _ _ => rfl, by simp⟩
@@ -285,32 +285,32 @@ theorem ChainMade.parent_contained {m m' : FMap} {l : List Str} (h : ChainMade m
   · subst hl
     obtain ⟨e, he, _⟩ := h.wf.1
     exact ⟨e, he⟩
-  · obtain ⟨e, he, _⟩ := h.dirs _ (renderC_mem_chain l hl)
+  · obtain ⟨e, he, _⟩ := h.dirs _ (renderC_mem_ancChain l hl)
     exact ⟨e, he⟩
 
 theorem ChainMade.parent_dir {m m' : FMap} {l : List Str} (h : ChainMade m m' l) :
     ∃ e, m'.find? (renderC l) = some e ∧ e.ftype = .dir := by
   by_cases hl : l = []
   · subst hl; exact h.wf.1
-  · exact h.dirs _ (renderC_mem_chain l hl)
+  · exact h.dirs _ (renderC_mem_ancChain l hl)
 
-/-- (b) no prefix is a file: the loop succeeds and makes exactly the chain -/
+/-- (b) no prefix is a file: the loop succeeds and makes exactly the ancChain -/
 theorem createDirAllLoop_chain (m : FMap) (hm : WF m) (cs : List Str) :
     (∀ c ∈ cs, '/' ∉ c) →
-    (∀ q ∈ chain cs, ∀ e, m.find? q = some e → e.ftype = .dir) →
-    (Mem.createDirAllLoop m (chain cs)).1 = .ok () ∧
-      ChainMade m (Mem.createDirAllLoop m (chain cs)).2 cs := by
+    (∀ q ∈ ancChain cs, ∀ e, m.find? q = some e → e.ftype = .dir) →
+    (Mem.createDirAllLoop m (ancChain cs)).1 = .ok () ∧
+      ChainMade m (Mem.createDirAllLoop m (ancChain cs)).2 cs := by
   refine snoc_induction (P := fun cs => (∀ c ∈ cs, '/' ∉ c) →
-    (∀ q ∈ chain cs, ∀ e, m.find? q = some e → e.ftype = .dir) →
-    (Mem.createDirAllLoop m (chain cs)).1 = .ok () ∧
-      ChainMade m (Mem.createDirAllLoop m (chain cs)).2 cs) ?_ ?_ cs
+    (∀ q ∈ ancChain cs, ∀ e, m.find? q = some e → e.ftype = .dir) →
+    (Mem.createDirAllLoop m (ancChain cs)).1 = .ok () ∧
+      ChainMade m (Mem.createDirAllLoop m (ancChain cs)).2 cs) ?_ ?_ cs
   · intro _ _; exact ⟨rfl, ChainMade.refl_nil hm⟩
   · intro l c ih hsl hnf
     have hc : '/' ∉ c := hsl c (by simp)
     obtain ⟨hok, hmade⟩ := ih (fun x hx => hsl x (by simp [hx]))
-      (fun q hq => hnf q (by rw [chain_snoc]; simp [hq]))
-    rw [chain_snoc, Mem.createDirAllLoop_append m _ _ hok]
-    generalize (Mem.createDirAllLoop m (chain l)).2 = m1 at hmade
+      (fun q hq => hnf q (by rw [ancChain_snoc]; simp [hq]))
+    rw [ancChain_snoc, Mem.createDirAllLoop_append m _ _ hok]
+    generalize (Mem.createDirAllLoop m (ancChain l)).2 = m1 at hmade
     have hd : renderC (l ++ [c]) = renderC l ++ '/' :: c := renderC_snoc l c
     have hs : '/' ∈ renderC (l ++ [c]) := by rw [hd]; simp
     have hpar : parentInternal (renderC (l ++ [c])) = renderC l := by
@@ -318,7 +318,7 @@ theorem createDirAllLoop_chain (m : FMap) (hm : WF m) (cs : List Str) :
     have hcont : ∃ pe, m1.find? (parentInternal (renderC (l ++ [c]))) = some pe ∧ pe.ftype = .dir := by
       rw [hpar]; exact hmade.parent_dir
     have hsame : m1.find? (renderC (l ++ [c])) = m.find? (renderC (l ++ [c])) :=
-      hmade.frame _ (snoc_not_mem_chain l c)
+      hmade.frame _ (snoc_not_mem_ancChain l c)
     cases hf : m.find? (renderC (l ++ [c])) with
     | none =>
       rw [hf] at hsame
@@ -326,7 +326,7 @@ theorem createDirAllLoop_chain (m : FMap) (hm : WF m) (cs : List Str) :
       obtain ⟨pe, hpe, hpd⟩ := hmade.parent_dir
       refine ⟨hmade.wf.insert_dir _ _ rfl hs pe (by rw [hpar]; exact hpe) hpd, ?_, ?_, ?_, ?_⟩
       · intro q hq
-        rw [chain_snoc, List.mem_append, List.mem_singleton] at hq
+        rw [ancChain_snoc, List.mem_append, List.mem_singleton] at hq
         rw [FMap.find?_insert]
         split
         · exact ⟨_, rfl, rfl⟩
@@ -339,11 +339,11 @@ theorem createDirAllLoop_chain (m : FMap) (hm : WF m) (cs : List Str) :
         · rename_i hkd; rw [hkd, hf] at hk; cases hk
         · exact hmade.keeps k e hk
       · intro k hk
-        rw [chain_snoc, List.mem_append, List.mem_singleton, not_or] at hk
+        rw [ancChain_snoc, List.mem_append, List.mem_singleton, not_or] at hk
         rw [FMap.find?_insert, if_neg hk.2]
         exact hmade.frame k hk.1
       · intro q hq hqn
-        rw [chain_snoc, List.mem_append, List.mem_singleton] at hq
+        rw [ancChain_snoc, List.mem_append, List.mem_singleton] at hq
         rw [FMap.find?_insert]
         split
         · rfl
@@ -352,21 +352,21 @@ theorem createDirAllLoop_chain (m : FMap) (hm : WF m) (cs : List Str) :
           · rename_i hne; exact absurd hq hne
     | some e =>
       rw [hf] at hsame
-      have hdir : e.ftype = .dir := hnf _ (by rw [chain_snoc]; simp) e hf
+      have hdir : e.ftype = .dir := hnf _ (by rw [ancChain_snoc]; simp) e hf
       have hnotfile : ¬ e.ftype = .file := by rw [hdir]; decide
       simp only [Mem.createDirAllLoop, Mem.createDir_present m1 _ e hs hcont hsame, hnotfile,
         ↓reduceIte, fail, true_and]
       refine ⟨hmade.wf, ?_, hmade.keeps, ?_, ?_⟩
       · intro q hq
-        rw [chain_snoc, List.mem_append, List.mem_singleton] at hq
+        rw [ancChain_snoc, List.mem_append, List.mem_singleton] at hq
         rcases hq with hq | hq
         · exact hmade.dirs q hq
         · subst hq; exact ⟨e, hsame, hdir⟩
       · intro k hk
-        rw [chain_snoc, List.mem_append, List.mem_singleton, not_or] at hk
+        rw [ancChain_snoc, List.mem_append, List.mem_singleton, not_or] at hk
         exact hmade.frame k hk.1
       · intro q hq hqn
-        rw [chain_snoc, List.mem_append, List.mem_singleton] at hq
+        rw [ancChain_snoc, List.mem_append, List.mem_singleton] at hq
         rcases hq with hq | hq
         · exact hmade.fresh q hq hqn
         · subst hq; rw [hf] at hqn; cases hqn
@@ -375,17 +375,17 @@ theorem createDirAllLoop_chain (m : FMap) (hm : WF m) (cs : List Str) :
 shorter prefixes HAVE been created (create_dir_all is not atomic) -/
 theorem createDirAllLoop_file (m : FMap) (hm : WF m) (a b : List Str) (c : Str) (e : Entry)
     (hsl : ∀ x ∈ a ++ [c], '/' ∉ x)
-    (hbefore : ∀ q ∈ chain a, ∀ e, m.find? q = some e → e.ftype = .dir)
+    (hbefore : ∀ q ∈ ancChain a, ∀ e, m.find? q = some e → e.ftype = .dir)
     (hfile : m.find? (renderC (a ++ [c])) = some e) (hft : e.ftype = .file) :
-    Mem.createDirAllLoop m (chain (a ++ c :: b)) =
-      (.err .fileExists (some (renderC (a ++ [c]))), (Mem.createDirAllLoop m (chain a)).2) ∧
-    ChainMade m (Mem.createDirAllLoop m (chain a)).2 a := by
+    Mem.createDirAllLoop m (ancChain (a ++ c :: b)) =
+      (.err .fileExists (some (renderC (a ++ [c]))), (Mem.createDirAllLoop m (ancChain a)).2) ∧
+    ChainMade m (Mem.createDirAllLoop m (ancChain a)).2 a := by
   obtain ⟨hok, hmade⟩ := createDirAllLoop_chain m hm a (fun x hx => hsl x (by simp [hx])) hbefore
   refine ⟨?_, hmade⟩
-  obtain ⟨rest, hrest⟩ := chain_append_exists (a ++ [c]) b
+  obtain ⟨rest, hrest⟩ := ancChain_append_exists (a ++ [c]) b
   have hcs : a ++ c :: b = (a ++ [c]) ++ b := by simp
-  rw [hcs, hrest, chain_snoc, List.append_assoc, Mem.createDirAllLoop_append m _ _ hok]
-  generalize (Mem.createDirAllLoop m (chain a)).2 = m1 at hmade
+  rw [hcs, hrest, ancChain_snoc, List.append_assoc, Mem.createDirAllLoop_append m _ _ hok]
+  generalize (Mem.createDirAllLoop m (ancChain a)).2 = m1 at hmade
   have hc : '/' ∉ c := hsl c (by simp)
   have hd : renderC (a ++ [c]) = renderC a ++ '/' :: c := renderC_snoc a c
   have hs : '/' ∈ renderC (a ++ [c]) := by rw [hd]; simp
@@ -394,7 +394,7 @@ theorem createDirAllLoop_file (m : FMap) (hm : WF m) (a b : List Str) (c : Str) 
   have hcont : ∃ pe, m1.find? (parentInternal (renderC (a ++ [c]))) = some pe ∧ pe.ftype = .dir := by
     rw [hpar]; exact hmade.parent_dir
   have hsame : m1.find? (renderC (a ++ [c])) = some e := by
-    rw [hmade.frame _ (snoc_not_mem_chain a c)]; exact hfile
+    rw [hmade.frame _ (snoc_not_mem_ancChain a c)]; exact hfile
   simp only [List.singleton_append, Mem.createDirAllLoop, Mem.createDir_present m1 _ e hs hcont hsame,
     hft, ↓reduceIte, fail]
 
@@ -1707,9 +1707,9 @@ theorem moveDir_flat {w : World} {i j : Nat} {ms md : FMap}
 /-- in a well-formed map the shorter prefixes of a present path are existing directories -/
 theorem WF.chain_dirs {m : FMap} (hwf : WF m) (a : List Str) (c : Str) (e : Entry)
     (hq : m.find? (renderC (a ++ [c])) = some e) :
-    ∀ q' ∈ chain a, q' ≠ [] ∧ ∃ e', m.find? q' = some e' ∧ e'.ftype = .dir := by
+    ∀ q' ∈ ancChain a, q' ≠ [] ∧ ∃ e', m.find? q' = some e' ∧ e'.ftype = .dir := by
   intro q' hq'
-  obtain ⟨k, hk, rfl⟩ := (mem_chain a q').1 hq'
+  obtain ⟨k, hk, rfl⟩ := (mem_ancChain a q').1 hq'
   have hsplit : renderC (a ++ [c]) = renderC (a.take (k + 1)) ++ renderC (a.drop (k + 1) ++ [c]) := by
     rw [← renderC_append, ← List.append_assoc, List.take_append_drop]
   have hne : a.take (k + 1) ≠ [] := by
@@ -1732,14 +1732,14 @@ theorem WF.chain_dirs {m : FMap} (hwf : WF m) (a : List Str) (c : Str) (e : Entr
 theorem createDirAllLoop_file_wf (m : FMap) (hm : WF m) (a b : List Str) (c : Str) (e : Entry)
     (hsl : ∀ x ∈ a ++ [c], '/' ∉ x)
     (hfile : m.find? (renderC (a ++ [c])) = some e) (hft : e.ftype = .file) :
-    Mem.createDirAllLoop m (chain (a ++ c :: b)) =
+    Mem.createDirAllLoop m (ancChain (a ++ c :: b)) =
       (.err .fileExists (some (renderC (a ++ [c]))), m) := by
   have hdirs := hm.chain_dirs a c e hfile
   have := (createDirAllLoop_file m hm a b c e hsl
     (fun q hq e' he' => by
       obtain ⟨_, e'', he'', hd⟩ := hdirs q hq
       rw [he'] at he''; injection he'' with he''; subst he''; exact hd) hfile hft).1
-  rw [this, createDirAllLoop_existing m hm (chain a) hdirs]
+  rw [this, createDirAllLoop_existing m hm (ancChain a) hdirs]
 
 /-! ### 7. evaluation helpers for the concrete examples -/
 
